@@ -1,8 +1,56 @@
 import NflowsModel.Core.Driver
-/-! Core/Ops/C06 — driver operations used by the C06 correspondence (executable model, Mathlib-free). -/
+import NflowsModel.Core.Made
+/-! Core/Ops/C06 — driver operations used by the C06 correspondence (executable model, Mathlib-free).
+
+`made`          i = [F, H, blocks, mult, residual, random, nde, C, bn, actMul, wantMasks, wantPaths, noDraws, degs…]
+                (`degs` = the drawn degrees of the hidden `MaskedLinear`s, `H` numbers per layer, module order)
+                → e = exception kind of the constructor | null,
+                  i = [L, (nOut, nIn, degrees[nOut], mask[nOut*nIn]) × L,  rows, cols, pathCount[rows*cols]]
+`made_resblock` i = [F, random, in_degrees…]   (a `MaskedResidualBlock` built directly)
+                → e | i = [2, (nOut, nIn, degrees, mask) × 2]
+-/
 namespace NF
+open NF.Made
+
+def chunk06 (n : Nat) (xs : List Nat) : Nat → List (List Nat)
+  | 0 => []
+  | k + 1 => xs.take n :: chunk06 n (xs.drop n) k
+
+def encLayer (l : List Nat × List Nat × Bool) : List Int :=
+  let (dIn, dOut, strict) := l
+  [Int.ofNat dOut.length, Int.ofNat dIn.length] ++ dOut.map Int.ofNat ++
+    ((mask strict dIn dOut).flatMap (fun row => row.map (fun b => if b then (1 : Int) else 0)))
+
+def encLayers (ls : List (List Nat × List Nat × Bool)) : List Int :=
+  Int.ofNat ls.length :: ls.flatMap encLayer
+
+def encMatrix (rows cols : Nat) (mx : List (List Nat)) : List Int :=
+  [Int.ofNat rows, Int.ofNat cols] ++ mx.flatMap (fun r => r.map Int.ofNat)
+
+def runMade (r : Req) : Resp :=
+  let tail := (r.ints.toList.drop 13).map Int.toNat
+  let H := r.nat 1
+  let nB := r.nat 2
+  let a : Arch := { F := r.nat 0, H := H, nBlocks := nB, mult := r.nat 3, residual := r.flag 4, random := r.flag 5,
+                    nde := r.flag 6, ctx := r.nat 7, bn := r.flag 8, degs := chunk06 H tail (1 + 2 * nB), noDraws := r.flag 12 }
+  match build a with
+  | .error e => errResp e
+  | .ok n =>
+    let ms := if r.flag 10 then encLayers (layers n) else [0]
+    let ps := if r.flag 11 then encMatrix (n.F * n.m) (n.F + a.ctx) (pathCount n a.ctx (r.nat 9)) else [0, 0]
+    { ints := ms ++ ps ++ [if n.valid then 1 else 0] }
+
+def runResBlock (r : Req) : Resp :=
+  let dIn := (r.ints.toList.drop 2).map Int.toNat
+  match buildResBlock (r.nat 0) (r.flag 1) dIn with
+  | .error e => errResp e
+  | .ok b => { ints := encLayers (blockLayers dIn [b]) }
 
 /-- handler for the ops of this property; `none` = not one of mine -/
-def handleC06 (_r : Req) : Option Resp := none
+def handleC06 (r : Req) : Option Resp :=
+  match r.op with
+  | "made" => some (runMade r)
+  | "made_resblock" => some (runResBlock r)
+  | _ => none
 
 end NF
